@@ -41,7 +41,11 @@ static void (*g_end)(long) = 0;
 // node containers (List<T>, PoolList<T>)
 // ---------------------------------------------------------------------------------------
 template<class T> static size_t stride(const List<T>&) { return sizeof(typename List<T>::Item); }
-template<class T> static size_t stride(const PoolList<T>&) { return sizeof(typename PoolList<T>::Item) + sizeof(T); }
+// PoolList: item header + element, rounded up to pointer alignment (as allocateFreeItem does)
+template<class T> static size_t stride(const PoolList<T>&)
+{
+  return (sizeof(typename PoolList<T>::Item) + sizeof(T) + sizeof(void*) - 1) / sizeof(void*) * sizeof(void*);
+}
 
 struct BlockRef { const char* base; long serial; };
 static int cmp_block(const void* a, const void* b)
